@@ -145,6 +145,15 @@ CHECKS = {
              "(the nested-if refusal listed under C18) is counted as a refusal, a parse error on a rewritten valid text is a violation.",
         design="DESIGN.md section 4 C19",
     ),
+    "C09": dict(
+        technique="property-based testing: generated guarded loops; exact conditional sequence from the reference interpreter, exact exit distribution by absorbing-Markov-chain algebra / closed-form geometric series",
+        text="Generated-input search over guarded loops: finite-state programs (exit distribution conditional on exit computed exactly by solving (I-Q) over Fractions) and "
+             "geometric-exit templates with affine updates including divergent cases; the values reported with after_loop for raw moments, central moments and cumulants "
+             "are compared with the exact quantities at exit (infinite when the series diverges to infinity), and get_moment_given_termination is compared at every n<=7 "
+             "with E(M | stopped by n). The known lag of that sequence (C09-F1) is recognised only by the exact relation polar(n) == truth(n-1).",
+        note=TRUSTED + " Oscillating (conditionally divergent) exits are not judged; template central/cumulant goals only at order 2; <=300 running states.",
+        design="DESIGN.md section 4 C09",
+    ),
 }
 
 PENDING = {}
